@@ -3,5 +3,5 @@ CONSTANTS
   Mode = "struct"
   FreeLen = 4
   MaxDev = 3
-INVARIANTS TypeOK FaultAgrees LaxAdmitsMore StrictWithinHistorical Unambiguous AcceptedShape KindsDisjoint IPv4WithinDns Emit
+INVARIANTS TypeOK FaultAgrees LaxAdmitsMore StrictWithinHistorical Unambiguous AcceptedShape KindsDisjoint IPv4WithinDns StrayRefused Emit
 CHECK_DEADLOCK FALSE
